@@ -1,5 +1,6 @@
 import SkgVerif.Lemmas.Edges
 import SkgVerif.Lemmas.Median
+import SkgVerif.Gen.Tables
 /-!
 # C02 — lag edges are well-formed and honour n_lags and maxlag
 -/
@@ -145,6 +146,27 @@ theorem C02_effMax (ds : List Rat) (m : Rat) :
     · exact not_lt.1 h
   · intro h; unfold effMax; simp [not_lt.2 h]
   · intro h; unfold effMax; simp [h]
+
+/-- the maxlag setter as it is in the source (generated) is the documented resolution -/
+theorem C02_source_resolve (req : MaxlagReq) (ds : List Rat) :
+    Gen.resolveGen req ds = resolveMaxlag req ds := by
+  cases req <;> rfl
+
+/-- every binning function clips maxlag against the largest distance with the documented
+statement and (where it uses the distances) selects those within it; `even` / `uniform` return the
+documented constructions -/
+theorem C02_source_binning :
+    let clip := "if maxlag is None or maxlag > np.nanmax(distances):\n    maxlag = np.nanmax(distances)"
+    Gen.binningClipAndFilter =
+      [("even_width_lags", clip, ""),
+       ("uniform_count_lags", clip, "d = distances[np.where(distances <= maxlag)]"),
+       ("auto_derived_lags", clip, "d = distances[np.where(distances <= maxlag)]"),
+       ("kmeans", clip, "d = np.sort(distances[np.where(distances <= maxlag)])"),
+       ("ward", clip, "d = np.sort(distances[np.where(distances <= maxlag)])")] ∧
+    Gen.evenReturn = "return (np.linspace(0, maxlag, n + 1)[1:], None)" ∧
+    Gen.uniformReturn =
+      "return (np.fromiter((np.nanpercentile(d, i / n * 100) for i in range(1, n + 1)), dtype=float), None)" := by
+  decide
 
 /-- non-vacuity -/
 example : evenEdges 4 10 = [5/2, 5, 15/2, 10] ∧
